@@ -245,8 +245,8 @@ def check_solution_from(source, solvent, src_after, new):
 def check_dataframe(c):
     """Container.dataframe() (also behind repr() and the notebook display): every cell 'value unit' of a substance row and
     of the Total row states the true amount in that dimension at the displayed precision; '-' only where the substance has
-    no such measure (moles of an enzyme, activity of anything else).  The 'Maximum Volume' row carries a bare number and is
-    not judged."""
+    no such measure (moles of an enzyme, activity of anything else).  The 'Maximum Volume' cell states the capacity - a
+    quantity, so a number with its unit (or the infinity sign for a vessel without one)."""
     M.count('INSTR.dataframe')
     with M.oracle():
         try:
@@ -280,9 +280,20 @@ def check_dataframe(c):
                 bad = (rname, col, str(cell), actual)
         if bad:
             break
+    if not bad and 'Maximum Volume' in df.index:
+        cell = df.loc['Maximum Volume', 'Volume']
+        cap_l = c.max_volume * R.cfg().vol_prefix
+        M.count('INSTR.dataframe_capacity')
+        if cap_l == float('inf'):
+            if any(ch.isdigit() for ch in str(cell)):
+                bad = ('Maximum Volume', 'Volume', str(cell), cap_l)
+        else:
+            toks = tokens(str(cell) + ' ')
+            if not toks or toks[0][2] != 'L' or not token_matches(toks[0], {'L': cap_l}, R.cfg().q * R.cfg().vol_prefix * R.K):
+                bad = ('Maximum Volume', 'Volume', str(cell), cap_l)
     M.bucket('C19/dataframe/' + ('ok' if not bad else 'bad'))
     if bad:
-        M.violate(['C19'], 'INSTR', 'C19:dataframe_cell_ne_true_amount:' + ('total' if bad[0] == 'Total' else 'substance') + f':{bad[1]}',
+        M.violate(['C19'], 'INSTR', 'C19:dataframe_cell_ne_true_amount:' + ('total' if bad[0] == 'Total' else 'capacity' if bad[0] == 'Maximum Volume' else 'substance') + f':{bad[1]}',
                   {'container': c.name, 'row': bad[0], 'column': bad[1], 'cell': bad[2], 'actual_base_units': bad[3],
                    'contents': {s_.name: a_ for s_, a_ in c.contents.items()}})
     else:
